@@ -236,6 +236,66 @@ def triple_cases(an: str, bn: str, cn: str) -> list[tuple[str, str]]:
     return out
 
 
+def history_cases(an: str, bn: str) -> list[tuple[str, str]]:
+    """one point object converted again and again: into two instances of the target type, back
+    into the first, into the third type and back - every conversion must answer for the system
+    instance it was asked for, whatever was converted before"""
+    from symplyphysics.core.experimental.coordinate_systems import convert_point, convert_vector
+    from symplyphysics.core.experimental.points import AppliedPoint
+    sy = systems()
+    A = sy[an]
+    other = [n for n in NAMES if n not in (an, bn)]
+    out = []
+    coeffs = (sp.Rational(3, 7), sp.Rational(-11, 5), sp.Rational(13, 3))
+    for qa in POINTS[an][::3]:
+        P = AppliedPoint(qa, A)
+        p = position(an, qa)
+        fa = frame(an, qa)
+        targets = [(bn, type(sy[bn])()), (bn, type(sy[bn])())]
+        targets.append(targets[0])
+        if other:
+            targets.append((other[0], sy[other[0]]))
+        targets.append(targets[1])
+        for vfirst in (False, True):  # the vector before the point, or the point first
+            for step, (tn, T) in enumerate(targets):
+                tag = f"history:{an}->{bn}:{qa}:{'vector-first' if vfirst else 'point-first'}:{step}"
+                try:
+                    va = A.base_vectors(P)
+                    v = sum(c * e for c, e in zip(coeffs, va))
+                    if vfirst:
+                        vb = convert_vector(v, P, T)
+                        Pt = convert_point(P, T)
+                    else:
+                        Pt = convert_point(P, T)
+                        vb = convert_vector(v, P, T)
+                except Exception as ex:  # pylint: disable=broad-except
+                    out.append((tag, f"conversion raised {type(ex).__name__}: {short(ex)}"))
+                    continue
+                if Pt.system is not T or set(Pt.coordinates) != set(T.base_scalars):
+                    out.append((tag, f"converted point does not belong to the requested {tn} system "
+                        "instance"))
+                    continue
+                got = tuple(Pt.coordinates[s_] for s_ in T.base_scalars)
+                if not all(near(x, y) for x, y in zip(position(tn, got), p)):
+                    out.append((tag, f"converted point {short(got)} is not at the original position"))
+                    continue
+                fb = frame(tn, coords_of(tn, p))
+                nb = T.base_vectors(Pt)
+                ev = sp.expand(vb)
+                comps_b = [ev.coeff(e) for e in nb]
+                rest = sp.expand(ev - sum(c * e for c, e in zip(comps_b, nb)))
+                cart_a = [sum(coeffs[j] * fa[j][i] for j in range(3)) for i in range(3)]
+                cart_b = [sum(comps_b[k] * fb[k][i] for k in range(3)) for i in range(3)]
+                try:
+                    ok = rest == 0 and all(near(x, y) for x, y in zip(cart_a, cart_b))
+                except TypeError:
+                    ok = False  # free symbols of another instance left in the components
+                out.append((tag, "" if ok else
+                    f"step {step} (into {tn}): vector converted to {short(vb, 120)}, which is not "
+                    f"the original vector over the base vectors of the requested system"))
+    return out
+
+
 def lame_cases() -> list[tuple[str, str]]:
     sy = systems()
     out = []
@@ -260,7 +320,7 @@ def lame_cases() -> list[tuple[str, str]]:
 def _work(item: tuple) -> dict:
     kind = item[0]
     cases = (pair_cases(*item[1:]) if kind == "pair" else triple_cases(*item[1:]) if kind == "triple"
-        else lame_cases())
+        else history_cases(*item[1:]) if kind == "history" else lame_cases())
     res: dict[str, Any] = {"n": len(cases), "keys": [k for k, _ in cases], "outcomes": {},
         "violations": [], "samples": [cases[len(cases) // 2][0]] if cases else []}
     for k, v in cases:
@@ -276,6 +336,7 @@ def main(run: Run) -> int:
     items += [("pair", a, a) for a in NAMES]
     items += [("triple", a, b, c) for a, b, c in itertools.permutations(NAMES, 3)]
     items.append(("lame", ))
+    items += [("history", a, b) for a, b in itertools.product(NAMES, repeat=2)]
     for r in pmap(_work, rotate(items, run.seed)):
         n = r.pop("n")
         run.evaluations += n
@@ -285,7 +346,8 @@ def main(run: Run) -> int:
         rule="6 ordered pairs (+3 same-type pairs) and 6 ordered triples of systems x lattice points "
         "of each domain x {scalar round trip, scalars vs geometry, orthonormality, determinant, "
         "inverse, rotation vs local frames, composition via the third system, convert_point, "
-        "convert_vector on 4 vectors}; Lame coefficients and Jacobian at every lattice point",
+        "convert_vector on 4 vectors}; conversion histories of one point object (two instances of "
+        "the target type, back, third type, again; point first / vector first); Lame coefficients and Jacobian at every lattice point",
         exhaustive=True,
         assumptions=["lattice points inside each system's domain, away from the axis", "values "
             "compared at 40 digits (1e-25)", "own position maps for (rho, phi, z) and (r, theta polar, "
